@@ -1294,6 +1294,7 @@ def _tempo_physical_input_parse(
             initial_state.shape == (hs_dim, hs_dim),
             "Initial sate must be a square matrix of " \
                 + f"dimension {hs_dim}x{hs_dim}.")
+        initial_state = initial_state.copy()
 
     check_isinstance(bath, Bath, 'bath')
 
